@@ -130,12 +130,37 @@ def lookupC (text : List Byte) (ix : Index) (c : Cache) (a : Nat) : Look × Cach
         | none => (.none, r.2)
         | some res => (.found res, r.2)
 
-/-- several lookups on one map, oldest first -/
-def lookupSeq (text : List Byte) (ix : Index) : Cache → List Nat → List Look
-  | _, [] => []
+/-- several lookups on one map, oldest first; the memo tables are handed on -/
+def lookupSeqC (text : List Byte) (ix : Index) : Cache → List Nat → List Look × Cache
+  | c, [] => ([], c)
   | c, a :: rest =>
     let r := lookupC text ix c a
-    r.1 :: lookupSeq text ix r.2 rest
+    let q := lookupSeqC text ix r.2 rest
+    (r.1 :: q.1, q.2)
+
+def lookupSeq (text : List Byte) (ix : Index) (c : Cache) (addrs : List Nat) : List Look :=
+  (lookupSeqC text ix c addrs).1
+
+/-- `iter_symbols()` collected (symbol_map.rs:244-272): for `i = start, start+1, …` paired with the symbol
+addresses `addrs`: the name of every PUBLIC / FUNC symbol whose record reads and parses, through the same memo
+tables as the lookups (`kind` other than 0 / 1 is skipped); `none` = `symbol_entries[i]` out of range (`:248`) -/
+def iterSymbolsC (text : List Byte) (ix : Index) : Cache → List Nat → Nat → Option (List (Nat × List Byte) × Cache)
+  | c, [], _ => some ([], c)
+  | c, addr :: rest, i =>
+    match ix.entries[i]? with
+    | none => none
+    | some e =>
+      if e.kind = 0 then
+        let r := publicInfoC text c.pubs e.offset e.len
+        match iterSymbolsC text ix { c with pubs := r.2 } rest (i + 1) with
+        | none => none
+        | some q => some ((match r.1 with | some n => [(addr, n)] | none => []) ++ q.1, q.2)
+      else if e.kind = 1 then
+        let r := funcInfoC text c.funcs e.offset e.len
+        match iterSymbolsC text ix { c with funcs := r.2 } rest (i + 1) with
+        | none => none
+        | some q => some ((match r.1 with | some info => [(addr, info.name)] | none => []) ++ q.1, q.2)
+      else iterSymbolsC text ix c rest (i + 1)
 
 inductive Served
   /-- `parse_symindex_file` rejected the stored index (the harness does not look further) -/
@@ -143,6 +168,8 @@ inductive Served
   /-- the text does not start with `MODULE `: not a Breakpad file, the load fails -/
   | notBreakpad
   | looks (ls : List Look)
+  /-- lookups, then `iter_symbols()` (`none` = panic), then more lookups, all on one map -/
+  | session (pre : List Look) (names : Option (List (Nat × List Byte))) (post : List Look)
 deriving Repr, DecidableEq
 
 /-- a `.sym` text served together with a stored `.symindex` (valid, stale or corrupted), then lookups -/
@@ -152,5 +179,17 @@ def serve (text idx : List Byte) (addrs : List Nat) : Served :=
   | some ix =>
     if (tag tMODULE_ text).isNone then .notBreakpad
     else .looks (lookupSeq text ix Cache.empty addrs)
+
+/-- the same with an `iter_symbols()` pass between two runs of lookups -/
+def serveSession (text idx : List Byte) (pre post : List Nat) : Served :=
+  match parseSymindex idx with
+  | none => .unparsed
+  | some ix =>
+    if (tag tMODULE_ text).isNone then .notBreakpad
+    else
+      let p := lookupSeqC text ix Cache.empty pre
+      match iterSymbolsC text ix p.2 ix.addrs 0 with
+      | none => .session p.1 none []        -- (the mutex is poisoned; nothing after it is compared)
+      | some it => .session p.1 (some it.1) (lookupSeq text ix it.2 post)
 
 end BPC
